@@ -882,28 +882,21 @@ def weird_net(rng, idx=0):
 # LUT reuse, deep weight slicing, single-channel FC after buffered convs, bias-less convs, ...)
 
 PATTERNS = ["multi_input", "input_npu_and_cpu", "residual", "lut_reuse", "deep_slices", "fc1_after_conv", "nobias",
-<<<<<<< HEAD
-            "casc_s2_valid", "two_npu_islands", "concat_slices", "shared_weights", "big_fm_u65", "avgpool_chain", "minmax_lrelu", "reshape_fork", "widen_ew"]
+            "casc_s2_valid", "two_npu_islands", "concat_slices", "shared_weights", "big_fm_u65", "avgpool_chain", "minmax_lrelu", "reshape_fork", "widen_ew", "shared_consts"]
 # families defined in netgen_ext.py (imported lazily: that module imports this one)
 EXT_PATTERNS = ["lut_mixed", "shape_out", "transpose_perm", "ew_fork", "fc1_two_core"]
 PATTERNS += EXT_PATTERNS
-=======
-            "casc_s2_valid", "two_npu_islands", "concat_slices", "shared_weights", "big_fm_u65", "avgpool_chain", "minmax_lrelu", "reshape_fork", "widen_ew", "shared_consts"]
->>>>>>> 6173d3b9c6edf80ad9de8cb8c305260edb52d284
 
 
 def pattern_net(rng, idx=0, pattern=None, variant=None):
     """`variant` (pattern sweep): deterministic choice of the sub-kind inside a family; None = drawn at random"""
     pattern = pattern or rng.choice(PATTERNS)
-<<<<<<< HEAD
     if pattern in EXT_PATTERNS:
         import netgen_ext
 
         return netgen_ext.build(rng, idx, pattern, variant)
-=======
     if pattern == "shared_consts":
         return shared_consts_net(rng, idx)
->>>>>>> 6173d3b9c6edf80ad9de8cb8c305260edb52d284
     dtype = rng.choice(["int8", "int8", "uint8"])
     b = B(rng, f"pat{idx}_{pattern}", dtype)
     b.net.desc.append(f"pattern={pattern} dtype={dtype}")
